@@ -193,8 +193,11 @@ def write_ev(pid, tier, seed, spec, results, vc_results, confirmed, inconclusive
     tot_checks = sum(r.stats.get("checks_total", 0) for r in results)
     solver_s = sum(r.stats.get("solver_s", 0) for r in results) + sum(v.get("solver_s", 0) for v in vc_results)
     symex_s = sum(r.stats.get("symex_s", 0) for r in results)
+    def vc_sites(v):
+        return sum(int(val) for k, val in v.items() if isinstance(val, int) and not isinstance(val, bool) and
+                   k.endswith(("_reached", "_checked", "_sites")))
     nontrivial = sum(1 for r in results if r.verdict == K.OK and not r.inst.expect_fail and
-                     (r.stats.get("vccs_remaining", 0) > 0)) + sum(1 for v in vc_results if v["verdict"] == "holds" and v.get("queries", 0) > 0)
+                     (r.stats.get("vccs_remaining", 0) > 0)) + sum(max(1, vc_sites(v)) for v in vc_results if v["verdict"] == "holds" and v.get("queries", 0) > 0)
     samples = []
     for r in results[:6]:
         samples.append({"kani_harness": r.inst.name, "family": r.inst.sub, "concrete_structure": r.inst.params,
